@@ -49,8 +49,13 @@ def op? : Sexp → Option Op
   | .atom "rt" => some .roundtrip
   | _ => none
 
-/-- `(pts shape (x y) …)` or `(grid x0 dx nx y0 dy ny)` → (shape, points in C order). -/
-def pts? : Sexp → Option (List Nat × List PtO)
+/-- `(pts shape (x y) …)`, `(grid x0 dx nx y0 dy ny)` or `(rep k <pts>)` (the point set repeated
+`k` times along a new leading axis) → (shape, points in C order). -/
+partial def pts? : Sexp → Option (List Nat × List PtO)
+  | .list [.atom "rep", k, inner] => do
+    let k ← k.toNat?
+    let (sh, ps) ← pts? inner
+    some (k :: sh, (List.replicate k ps).flatten)
   | .list (.atom "pts" :: sh :: ps) => do
     let sh ← sh.toNats?
     let ps ← ps.mapM fun e => match e with
